@@ -149,8 +149,13 @@ def run(ck, models, tier):
             for v in tm.variants(g.drop_fn):
                 for f in [e for e in v.trace if e.kind == "ffi" and e.name in FREE_FFI]:
                     okp = isinstance(f.args[0], Int) and self_field(f.args[0].e) == g.jit_ptr
-                    ck.ob("R3.7", "guard-drop/releases-own-mapping", tm.target, okp,
-                          "destructor releases %s (expected self.%s, which C12 R12.1 ties to this installation's allocation)" % (fmt(f.args[0].e, 3), g.jit_ptr), where(f))
+                    if tm.os == "windows":
+                        oks = f.args[1].is_const() and f.args[1].cval() == 0           # MEM_RELEASE frees the whole reservation
+                    else:
+                        oks = g.jit_size is not None and isinstance(f.args[1], Int) and self_field(f.args[1].e) == g.jit_size
+                    ck.ob("R3.7", "guard-drop/releases-own-mapping", tm.target, okp and oks,
+                          "destructor releases (%s, %s) (expected (self.%s, self.%s), which C12 R12.1 ties to this installation's allocation: a longer "
+                          "length unmaps whatever lies behind the trampoline)" % (fmt(f.args[0].e, 3), fmt(f.args[1].e, 4), g.jit_ptr, g.jit_size), where(f))
         for key, m in list(tm.machines.items()):
             for f in m.entered:
                 ck.analysed_fn(tm.target, f)
